@@ -628,6 +628,16 @@ def number_buffers(R, P):
         R.check(okt and size is not None and size >= need, "BUILDER", "number-text-fits:%s" % dst["n"], where(f, e), "%s[%s] holds the longest rendering (%d bytes with terminator)" % (dst["n"], size, need),
                 "the %d-byte array `%s` is too small for the longest value printed into it with \"%s\" (%d bytes with the terminator): snprintf truncates it - a 10-digit port is written without its last digit and the URI re-parses to another port" % (size or 0, dst["n"], fm["v"], need))
     R.require(n >= 1, "builder: no number formatted into a local array (confirmed: the port)")
+    # what the builder is given is what the parser hands back: the options' port is as wide as the parsed URI's port
+    def _w(rec_, fld_):
+        r_ = P.records.get(rec_) or {}
+        for fd_ in r_.get("fields", []):
+            if fd_["n"] == fld_:
+                return (r_["_unit"].types[fd_["t"]] or {}).get("w")
+        return None
+    wb, wu = _w("aws_uri_builder_options", "port"), _w("aws_uri", "port")
+    R.check(wb is not None and wu is not None and wb >= wu, "BUILDER", "port-option-as-wide-as-the-parsed-port", "include/aws/common/uri.h", "aws_uri_builder_options.port (%s bits) holds every aws_uri.port (%s bits)" % (wb, wu),
+            "aws_uri_builder_options.port has %s bits, aws_uri.port %s: a port above the option's range is truncated before it is written (70000 is built as :4464) and the URI does not parse back to what it was built from" % (wb, wu))
 
 
 def iterator_state(R, P):
@@ -946,6 +956,7 @@ def analyse(ctx, replace=None, only=None):
 
 
 MUTANTS = [
+    {"name": "builder-port-option-16-bit", "file": "include/aws/common/uri.h", "expect": "BUILDER", "old": "    uint32_t port;\n    struct aws_array_list *query_params;", "new": "    uint16_t port;\n    struct aws_array_list *query_params;"},
     {"name": "port-buffer-without-terminator-slot", "file": FILE, "expect": "BUILDER", "old": "#define PORT_BUFFER_SIZE 11", "new": "#define PORT_BUFFER_SIZE 10"},
     {"name": "iterator-resumes-by-lengths", "file": FILE, "expect": "QUERY", "old": "        substr.len = (param->value.ptr - param->key.ptr) + param->value.len;", "new": "        substr.len = param->key.len + 1 + param->value.len;"},
     {"name": "decoder-rejects-zero-byte", "file": FILE, "expect": "ENCODER", "old": "            if (AWS_UNLIKELY(aws_byte_cursor_read_hex_u8(&advancing, &c) == false)) {", "new": "            aws_byte_cursor_read_hex_u8(&advancing, &c);\n            if (AWS_UNLIKELY(!c)) {"},
